@@ -526,7 +526,12 @@ def _parse_module(cur, tab):
             if stop == "(":
                 modname = re.sub(r"\s+", " ", cur.text[cur.t[cur.i][2]:cur.t[k - 2][3]].strip())
                 if "#" in modname:
-                    raise ParseError("parameterised instantiation in %s is outside the subset" % name)
+                    # `<module> #( <parameter assignments> ) <instance> ( ... )`: the wrapper of a Verilog
+                    # placeholder instantiates the hand-written module this way
+                    mm = re.match(r"^([^#]*?)\s*#\s*\(.*\)$", modname, re.S)
+                    if not mm or not mm.group(1):
+                        raise ParseError("parameterised instantiation in %s is outside the subset" % name)
+                    modname = mm.group(1)
                 iname = cur.t[k - 1][1]
                 cur.i = j + 1
                 tab.declare(scope, iname, "inst")
@@ -564,8 +569,10 @@ def parse(text):
         elif cur.kind() == "dir":
             cur.next()
             if v in ("`ifndef", "`ifdef", "`define", "`undef", "`include", "`elsif", "`default_nettype",
-                     "`timescale"):
+                     "`timescale", "`line"):
                 if v == "`timescale":
+                    cur.next(), cur.next(), cur.next()
+                elif v == "`line":          # `line <number> "<file>" <level>  (pickled placeholder sources)
                     cur.next(), cur.next(), cur.next()
                 else:
                     cur.next()
